@@ -130,7 +130,7 @@ PROPS = {
                 "implementation-only oracle: all 65536 half-float codes through R16_FLOAT to U8 and U16 against exact integer arithmetic; distinct = distinct case lines",
         "trusted_base": BASE_TRUST + ["model/Float.v is an executable IEEE-754 model written for this project (not Flocq); it is tied to the hardware arithmetic the implementation runs on by differential execution only",
                                       "model/Uncomp.v states the documented bit fields, channel orders and defaults; it is the specification of the wiring and is compared with the code on every run"],
-        "assumptions": ["f32 -> U8/U16 (R32*_FLOAT) and the YUV matrices are modelled and compared but have no nearest-rounding theorem (2^32 / 2^24 input domains)",
+        "assumptions": ["f32 -> U8/U16 (R32*_FLOAT) is proved for every f32 in [0, 2^40) (monotone, every decision boundary within one ULP of the ideal); negative, huge, infinite and NaN inputs and the YUV matrices off the grey axis are modelled and compared only",
                         "non-native channel layouts are C05's subject"],
     },
     "C05": {
@@ -149,7 +149,7 @@ PROPS = {
                 "implementation-only oracles over all 45 non-BC formats: lossless round trips at the native layout where every stored channel holds the input (unstored channels decode to defaults), quantisation error within half a step for UNORM/SNORM fields on random f32 input incl. values outside [0,1], "
                 "and identical encoded bytes for the same pixel values carried as U8 / U16 (x257) / F32 (x/255), as GRAYSCALE / RGB / RGBA, with different row pitches and image shapes; distinct = distinct case lines",
         "trusted_base": BASE_TRUST + ["model/Float.v (executable IEEE-754 model, validated against the hardware by check C04)"],
-        "assumptions": ["dithering is excluded by the property and not modelled", "f32 inputs have no nearest-rounding theorem (2^32 domain): model comparison on boundary and random values"],
+        "assumptions": ["dithering is excluded by the property and not modelled", "f32 inputs into 8/16-bit UNORM fields are proved for every f32 in [0, 2^40); into narrower / SNORM / float fields they are compared with the model on boundary and random values only"],
     },
     "C01": {
         "kernel_sample": 10,
